@@ -18,6 +18,7 @@ func init() {
 			"O1 write order (R-DOM): an index entry for a freshly created pin is added only on the nil edge of the datastore Put of that pin's record (entries re-created from a record read back from the datastore are exempt); a pin record is deleted only after a CID-index Delete for that pin on every path and no index Delete for it can follow the record Delete; when one function both removes the pins of a CID and adds a pin for the same CID, the add comes first (otherwise a stop between the two leaves the CID unpinned); " +
 			"O2 dirty flag covers every write (R-DOM): every record/index write of package dspinner is dominated, in its function, by a call of the dirty-flag marker (role: the function that Puts 1 under dirtyKey), or the function is the recovery path whose every call site is guarded by 'persisted flag == 1'; and no write can follow a call that may clear the flag (anything reaching the cleaner, e.g. flushPins) without a new marker call in between; " +
 			"O3 flag protocol (R-DOM/R-CONST/R-WHO): the marker writes the flag whenever the state was clean (dirty==clean compared before the counter is bumped) and Syncs it on the Put's nil edge; the cleaner stores clean=dirty only on the nil edges of Put(dirtyKey,0) and Sync(dirtyKey); the cleaner is called only on the nil edge of a Datastore.Sync of a key that is a path prefix of every pin/index key constant; marker, cleaner and the test in New agree on the flag constants; New returns a pinner, when the persisted flag equals the marker value, only after the recovery function succeeded; dirty/clean counters are stored only by marker, cleaner and the constructor. " +
+			"O4 index removals scoped to the record (R-FLOW/R-DOM): an Indexer.Delete names the id of a pin object and, on the CID indexes, the key of that pin's own CID; a whole-key removal (DeleteKey/DeleteAll) is allowed only as the dangling-entry repair - in a function that searched the same index under the same key and on the not-found edge of reading back a record whose id came from that search (so every record under the key is being dropped or does not exist); a key passed as a parameter is followed to every call site. " +
 			"NOT decided: that rebuildIndexes reconstructs exactly the model state, datastore-level atomicity of a single Put/Delete, errors of the marker's own Put (it only logs), behaviour under datastore faults.",
 		Assume:    []string{"a datastore write is atomic and persisted when it returns (the property's crash model)", "only package dspinner writes below /pins"},
 		Technique: "role-based call classification, SSA dominance and edge-guard queries (R-DOM), reachability with blocking sets (R-POST), constants from types (R-CONST), writer sets (R-WHO)",
@@ -30,10 +31,12 @@ func runC23(c *an.Ctx) {
 	if m == nil {
 		return
 	}
+	c22Cur = m
 	c.Note("roles: marker={%s}; cleaner={%s}; may-clear={%s}; record adders={%s}; record removers={%s}", m.names(m.markers), m.names(m.cleaner), m.names(m.cleans), m.names(m.adds), m.names(m.removes))
 	c23O1(m)
 	c23O2(m)
 	c23O3(m)
+	c23O4(m)
 	c22SweepImplementers(c, "O2", m.p.Named(c22Pin, "Pinner"), c22Pkg+".pinner")
 }
 
@@ -328,6 +331,9 @@ func (cv *c23Cover) callersCover(fn *ssa.Function, seen map[*ssa.Function]bool) 
 			}
 			if !an.Reaches(f, nil, call, nil, marks) {
 				continue // marked in f on every path
+			}
+			if rec, _ := c23IsRecovery(cv.m, f); rec {
+				continue // the recovery pass runs with the persisted flag set
 			}
 			if ok, why := cv.callersCover(f, seen); !ok {
 				return false, why
@@ -877,4 +883,268 @@ func c23PathConsts(m *c22Model) []string {
 		}
 	}
 	return out
+}
+
+// c23IdxKinds: the index kinds ("R","D","N") a call's receiver can denote
+// (a field load, or a local variable assigned from field loads).
+func c23IdxKinds(call ssa.CallInstruction) map[string]bool {
+	out := map[string]bool{}
+	for _, r := range an.Roots(an.Recv(call), nil) {
+		u, ok := r.(*ssa.UnOp)
+		if !ok || u.Op != token.MUL {
+			return map[string]bool{"?": true}
+		}
+		f, _ := an.FieldOf(u.X)
+		k := c22R.idxKind[f]
+		if k == "" {
+			return map[string]bool{"?": true}
+		}
+		out[k] = true
+	}
+	return out
+}
+
+// c23NotFoundEdges: edges of fn on which errors.Is(err, ds.ErrNotFound) holds
+// for the error of the given call.
+func c23NotFoundEdges(fn *ssa.Function, read ssa.CallInstruction) an.EdgeSet {
+	errs := map[ssa.Value]bool{}
+	for _, e := range c22ErrVals(read) {
+		errs[e] = true
+	}
+	var tests []ssa.Value
+	for _, call := range an.Calls(fn, an.M("errors", "", "Is")) {
+		a := call.Common().Args
+		if len(a) != 2 || !errs[a[0]] {
+			continue
+		}
+		isNF := false
+		if u, ok := a[1].(*ssa.UnOp); ok && u.Op == token.MUL {
+			if g, ok := u.X.(*ssa.Global); ok && g.Name() == "ErrNotFound" && g.Pkg != nil && g.Pkg.Pkg.Path() == c22DsPkg {
+				isNF = true
+			}
+		}
+		if isNF {
+			if cv := an.CallValue(call); cv != nil {
+				tests = append(tests, cv)
+			}
+		}
+	}
+	if len(tests) == 0 {
+		return an.EdgeSet{}
+	}
+	return an.BoolEdges(fn, tests, true)
+}
+
+// c23WholeKeyOK: a whole-key removal at `site` (a DeleteKey in fn, or the call
+// of a helper that does one for its key parameter) is the dangling-entry
+// repair: fn searched an index of each affected kind under the same key, and
+// site is reachable only on the not-found edge of reading back a record whose
+// id came from such a search.
+func c23WholeKeyOK(m *c22Model, fn *ssa.Function, site ssa.Instruction, key ssa.Value, kinds map[string]bool, depth int) (bool, string) {
+	if kinds["?"] {
+		return false, "the index it is applied to is not a plain index field"
+	}
+	why := "no Search of the same index under the same key in " + fn.Name()
+	var searches []ssa.CallInstruction
+	covered := map[string]bool{}
+	for _, call := range an.AllCalls(fn) {
+		if !c22IsIndexerCall(an.Callee(call), "Search") {
+			continue
+		}
+		a := an.Args(call)
+		if len(a) < 2 || !c22SameVal(a[1], key) {
+			continue
+		}
+		for k := range c23IdxKinds(call) {
+			covered[k] = true
+		}
+		searches = append(searches, call)
+	}
+	all := len(searches) > 0
+	for k := range kinds {
+		if !covered[k] {
+			all = false
+		}
+	}
+	if all {
+		// a record read keyed by an id of those searches, on whose not-found edge the site lies
+		for _, read := range an.AllCalls(fn) {
+			if _, plain := read.(*ssa.Call); !plain || len(an.ErrResult(read)) == 0 {
+				continue
+			}
+			ci := an.Callee(read)
+			isRead := c22IsDstoreCall(ci, "Get")
+			if h := c22Local(ci); h != nil {
+				if rs := h.Signature.Results(); rs.Len() == 2 && c22R.pinT != nil && an.TypeIs(rs.At(0).Type(), c22Pkg, c22R.pinT.Obj().Name()) {
+					isRead = true
+				}
+			}
+			if !isRead {
+				continue
+			}
+			fromSearch := false
+			for _, arg := range read.Common().Args {
+				for _, r := range an.Roots(arg, nil) {
+					// element of a Search result (possibly appended / ranged over)
+					if lu, ok := r.(*ssa.UnOp); ok && lu.Op == token.MUL {
+						if ia, ok := lu.X.(*ssa.IndexAddr); ok {
+							for _, base := range an.Roots(ia.X, &an.FlowOpts{Through: func(cl *ssa.Call) ([]ssa.Value, bool) {
+								if an.Callee(cl).Builtin == "append" {
+									return cl.Call.Args, true
+								}
+								return nil, false
+							}}) {
+								for _, sc := range searches {
+									for _, res := range an.Result(sc, 0) {
+										if base == res {
+											fromSearch = true
+										}
+									}
+								}
+							}
+						}
+					}
+				}
+			}
+			if !fromSearch {
+				continue
+			}
+			nf := c23NotFoundEdges(fn, read)
+			if len(nf) > 0 && an.GuardedBy(fn, nil, site, nf) {
+				return true, ""
+			}
+			why = "it is not confined to the ErrNotFound edge of reading back a record found by that search"
+		}
+		if why == "" {
+			why = "no record read-back conditions it"
+		}
+	}
+	// the key is a parameter: every call site must satisfy the condition
+	prm, ok := key.(*ssa.Parameter)
+	if !ok || prm.Parent() != fn || depth > 2 {
+		return false, why
+	}
+	pi := c44ParamIndex(prm)
+	n := 0
+	for _, g := range m.fns {
+		for _, call := range an.AllCalls(g) {
+			if an.Callee(call).Static != fn {
+				continue
+			}
+			n++
+			if ok, w := c23WholeKeyOK(m, g, call, call.Common().Args[pi], kinds, depth+1); !ok {
+				return false, "caller " + g.Name() + ": " + w
+			}
+		}
+	}
+	if n == 0 {
+		return false, why
+	}
+	return true, ""
+}
+
+// c23PinCidPair: in fn, cidv is the CID of pin: a load of the pin's CID field,
+// the CID the pin was constructed from, or - both being parameters - related so
+// at every static call site.
+func c23PinCidPair(fn *ssa.Function, pin, cidv ssa.Value, depth int) bool {
+	if u, ok := cidv.(*ssa.UnOp); ok && u.Op == token.MUL {
+		if _, base := an.FieldOf(u.X); base != nil && an.SameObj(base, pin) {
+			return true
+		}
+	}
+	for _, pr := range an.Roots(pin, nil) {
+		if cc, ok := pr.(*ssa.Call); ok {
+			for _, ca := range cc.Call.Args {
+				if c22SameVal(ca, cidv) {
+					return true
+				}
+			}
+		}
+	}
+	pp, ok1 := pin.(*ssa.Parameter)
+	cp, ok2 := cidv.(*ssa.Parameter)
+	if !ok1 || !ok2 || pp.Parent() != fn || cp.Parent() != fn || c22Cur == nil || depth > 2 {
+		return false
+	}
+	pi, ci := c44ParamIndex(pp), c44ParamIndex(cp)
+	n := 0
+	for _, g := range c22Cur.fns {
+		for _, call := range an.AllCalls(g) {
+			if an.Callee(call).Static != fn {
+				continue
+			}
+			n++
+			if !c23PinCidPair(g, call.Common().Args[pi], call.Common().Args[ci], depth+1) {
+				return false
+			}
+		}
+	}
+	return n > 0
+}
+
+// O4: index removals are scoped to the record they are made for.
+func c23O4(m *c22Model) {
+	c := m.c
+	nDel, nKey := 0, 0
+	for _, fn := range m.fns {
+		name := an.FuncName(fn)
+		for _, call := range an.AllCalls(fn) {
+			ci := an.Callee(call)
+			switch {
+			case c22IsIndexerCall(ci, "Delete"):
+				nDel++
+				a := an.Args(call)
+				pin := c23PinOfID(a[len(a)-1])
+				ok, why := pin != nil, "the value is not the id field of a pin object"
+				if !ok {
+					// the dangling-entry repair scoped to one entry: the id was found by a
+					// Search of this index under this key and its record could not be read
+					if d, _ := c23WholeKeyOK(m, fn, call, a[1], c23IdxKinds(call), 0); d {
+						c.OK("O4", "R-FLOW", name, c22CallLabel(call)+"(key,id)=dangling-entry", call.Pos(), "the entry removed was found by a search of the same index and key and has no record")
+						continue
+					}
+					why = "the value is neither the id field of a pin object nor an id whose record was found missing"
+				}
+				if ok {
+					kinds := c23IdxKinds(call)
+					if !kinds["N"] && !kinds["?"] {
+						// the key is the key string of that pin's own CID (its Cid
+						// field, or the CID the pin was built from)
+						ok, why = false, "the key is not the key string of that pin's CID"
+						for _, r := range an.Roots(a[1], nil) {
+							ks, isKS := an.IsCallTo(r, an.M(c22CidPkg, "Cid", "KeyString"))
+							if !isKS {
+								ok = false
+								break
+							}
+							recv := an.Recv(ks)
+							own := c23PinCidPair(fn, pin, recv, 0)
+							ok = own
+							if !ok {
+								break
+							}
+						}
+					}
+				}
+				c.Check(ok, "O4", "R-FLOW", name, c22CallLabel(call)+"(key,id)=this-pin", call.Pos(),
+					"the index entry removed is the one of this pin (its id under its own CID key)",
+					"an index entry is deleted but "+why+": the entry of another pin is removed / this pin's entry stays, so a pin record is left without (or with a foreign) index entry")
+			case c22IsIndexerCall(ci, "DeleteKey", "DeleteAll"):
+				nKey++
+				var key ssa.Value
+				if a := an.Args(call); len(a) >= 2 {
+					key = a[1]
+				}
+				ok, why := false, "DeleteAll wipes the whole index"
+				if key != nil {
+					ok, why = c23WholeKeyOK(m, fn, call, key, c23IdxKinds(call), 0)
+				}
+				c.Check(ok, "O4", "R-DOM", name, c22CallLabel(call)+"<=no-record-under-key", call.Pos(),
+					"the whole-key removal is the dangling-entry repair: same-key search, on the not-found edge of the record read",
+					"every index entry under the key is removed ("+c22CallLabel(call)+") although "+why+": entries that belong to other pin records of the same CID (e.g. the second record that exists while Update replaces a direct pin by a recursive one) are wiped, and those records stay unindexed after recovery")
+			}
+		}
+	}
+	c.Min("O4 Indexer.Delete calls", nDel, 4)
+	c.Min("O4 index removals (Delete + DeleteKey)", nDel+nKey, 7)
 }
